@@ -39,7 +39,7 @@ type sysPipe struct {
 
 const (
 	sysExchangeTimeout = 150 * time.Millisecond
-	sysQueryTimeout    = 2500 * time.Millisecond
+	sysQueryTimeout    = 1500 * time.Millisecond
 )
 
 func newSysPipe(t *topo, o sysOpts) *sysPipe {
@@ -128,7 +128,8 @@ func (sp *sysPipe) query(name string, qtype uint16, edns, do bool, client string
 	w := mock.NewWriter("udp", client)
 	ch := sp.P.P.NewChain()
 	ch.Reset(w, req)
-	ctx, cancel := context.WithTimeout(context.Background(), sp.P.Cfg.QueryTimeout.Duration+2*time.Second)
+	// exactly the deadline the real entry point (server.serveMsgBy) gives a request
+	ctx, cancel := context.WithTimeout(context.Background(), sp.P.Cfg.QueryTimeout.Duration)
 	defer cancel()
 	var ledger *middleware.RecursionWorkLedger
 	if own {
